@@ -110,6 +110,7 @@ BREAKING = [
     {"id": "C13-grow-append", "props": ["C13"], "edits": [E(INFRA, "return torch.cat((zeros(tensor, shape=shape), tensor), dim)", "return torch.cat((tensor, zeros(tensor, shape=shape)), dim)")]},
     {"id": "C13-unguarded-align", "props": ["C13"], "edits": [E(INFRA, "                if not self._ignore(self.__data):\n                    self.align(0)\n", "                self.align(0)\n", 2)]},
     {"id": "C13-mutate-before-refuse", "props": ["C13"], "edits": [E(INFRA, "                    # add if compatible\n                    if _constraints_compatible(", "                    constraints[dim] = size\n                    # add if compatible\n                    if _constraints_compatible(")]},
+    {"id": "C13-resize-head", "props": ["C13"], "edits": [E(INFRA, "                slices[dim] = slice(value.shape[dim] - size, None)\n            else:\n                slices[dim] = slice(None, size)", "                slices[dim] = slice(None, size)\n            else:\n                slices[dim] = slice(value.shape[dim] - size, None)")]},
     # ---------------- C14
     {"id": "C14-setter-wrong-field", "props": ["C14"], "edits": [E("neural/mixins.py", "                getattr(self, cstr).dt = value\n            self.__step_time = value", "                getattr(self, cstr).dt = value\n            self.__delay = value")]},
     {"id": "C14-delay-plus-dt", "props": ["C14"], "edits": [E("neural/mixins.py", "getattr(self, cstr).duration = value\n", "getattr(self, cstr).duration = value + self.__step_time\n")]},
@@ -122,6 +123,8 @@ BREAKING = [
     {"id": "C15-gating", "props": ["C15", "C16"], "edits": [E(INFRA, "        if self.evalexec and not module.training:\n            return self._posthook_call(module, *args, **kwargs)", "        if self.evalexec:\n            return self._posthook_call(module, *args, **kwargs)")]},
     {"id": "C15-tag-dropped", "props": ["C15"], "edits": [E("learn/trainers/two_factor_stdp.py", "            tc=state.tc_post,\n            trace=state.tracemode,\n        )\n\n        # postsynaptic spike monitor (triggers hebbian LTP)", "            tc=state.tc_post,\n        )\n\n        # postsynaptic spike monitor (triggers hebbian LTP)", 2)]},
     {"id": "C15-guard-dropped", "props": ["C15"], "edits": [E("learn/trainers/homeostasis.py", "            if not cell.training or not self.training or not cell.updater:\n                continue\n", "")]},
+    {"id": "C15-remap-swapped", "props": ["C15"], "edits": [E("neural/network.py", '"precurrent": ["connection", "syncurrent"],', '"precurrent": ["connection", "synspike"],')]},
+    {"id": "C15-realign-path", "props": ["C15"], "edits": [E("neural/network.py", 'return f"neurons_.{neuron}', 'return f"connections_.{neuron}')]},
     # ---------------- C16
     {"id": "C16-strong-capture", "props": ["C16"], "edits": [E(INFRA, "                    lambda module, *args, **kwargs: weakself().__wrapped_posthook(", "                    lambda module, *args, **kwargs: self.__wrapped_posthook(")]},
     {"id": "C16-dereg-keeps-handle", "props": ["C16"], "edits": [E(INFRA, "        self.__prehook_handle = None\n        self.__posthook_handle = None\n        if self.__finalizer:", "        self.__prehook_handle = None\n        if self.__finalizer:")]},
@@ -146,11 +149,25 @@ BREAKING = [
     {"id": "C19-refrac-dead", "props": ["C19"], "edits": [E("neural/functional/encoding.py", "refrac = step_time if refrac is None else refrac", "refrac = step_time if refrac is None else step_time", 2)]},
     {"id": "C19-mask-unindexed", "props": ["C19"], "edits": [E("neural/functional/encoding.py", "intervals[spikes] = torch.poisson(inputs[spikes], generator=generator)", "intervals[spikes] = torch.poisson(inputs, generator=generator)")]},
     {"id": "C19-encoder-wrong-attr", "props": ["C19"], "edits": [E("neural/encoders/poisson.py", "                refrac=self.refrac,", "                refrac=self.dt,", 2)]},
+    {"id": "C19-compensate-sign", "props": ["C19"], "edits": [E("neural/functional/encoding.py", "            res = res - refrac", "            res = res + refrac")]},
+    {"id": "C19-offset-dropped", "props": ["C19"], "edits": [E("neural/functional/encoding.py", "            * inputs[spikes]\n                + refrac\n", "            * inputs[spikes]\n")]},
     # ---------------- C20
     {"id": "C20-logcdf-recursion", "props": ["C20"], "edits": [E("stats/distributions.py", "return torch.log(cls.cdf(support, loc, scale))\n\n    @classmethod\n    def mean(\n        cls, loc", "return torch.log(cls.logcdf(support, loc, scale))\n\n    @classmethod\n    def mean(\n        cls, loc")]},
     {"id": "C20-normal-pdf", "props": ["C20"], "edits": [E("stats/distributions.py", "-0.5 * ((support - loc) / scale) ** 2", "-0.5 * ((support - loc) / scale)")]},
     {"id": "C20-linear-interp", "props": ["C20", "C02"], "edits": [E("functional/interpolation.py", "slope = (next_data - prev_data) / step_time", "slope = (prev_data - next_data) / step_time")]},
     {"id": "C20-lognormal-mean", "props": ["C20"], "edits": [E("stats/distributions.py", "return torch.exp(loc + scale**2 / 2)", "return torch.exp(loc + scale / 2)")]},
+]
+
+BREAKING += [
+    {"id": "C20-vp-shift-index", "props": ["C20"], "edits": [E("core/math.py", "cost * torch.abs(t0[r - 1] - t1[c - 1])", "cost * torch.abs(t0[r - 1] - t1[c])")]},
+    {"id": "C20-vp-insert-cost", "props": ["C20"], "edits": [E("core/math.py", "c_add_b = grid[:, r, c - 1] + 1", "c_add_b = grid[:, r, c - 1] + cost")]},
+    {"id": "C20-isi-shift", "props": ["C20"], "edits": [E("core/math.py", "(nz - 1) * step_time", "nz * step_time")]},
+    {"id": "C07-dt-setter-order", "props": ["C07", "C14"], "edits": [E("observe/reducers/trace.py", "        FoldReducer.dt.fset(self, value)\n        self.decay = exp(-self.dt / self.time_constant)", "        self.decay = exp(-self.dt / self.time_constant)\n        FoldReducer.dt.fset(self, value)", 6)]},
+    {"id": "C07-clear-default-fill", "props": ["C07"], "edits": [E("observe/reducers/base.py", "self.data_.reset(self.__fill)", "self.data_.reset()")]},
+    {"id": "C06-reset-falsy", "props": ["C06", "C01"], "edits": [E(INFRA, "        if fill is not None:\n            if not self._ignore(data):", "        if fill:\n            if not self._ignore(data):")]},
+    {"id": "C06-conv-selector-order", "props": ["C06", "C05"], "edits": [E("neural/connections/conv.py", '"f c h w -> 1 (c h w) 1 f"', '"f c h w -> 1 (h w c) 1 f"')]},
+    {"id": "C05-updater-bypass", "props": ["C05", "C10"], "edits": [E("neural/modeling.py", "                setattr(module, p, self.updates_[p](getattr(module, p), **kwargs))", "                param = getattr(module, p)\n                param.data = self.updates_[p](param, **kwargs)")]},
+    {"id": "C09-guard-wrong-part", "props": ["C09"], "edits": [E("learn/trainers/three_factor_stdp.py", "state.batchreduce(dneg, 0) if dneg.numel() else None", "state.batchreduce(dneg, 0) if dpos.numel() else None", 2)]},
 ]
 
 BENIGN = [
